@@ -52,7 +52,7 @@ def op_strategy(depth=1):
         inner = op_strategy(0)
         ctx = st.fixed_dictionaries({
             "op": st.just("hookctx"),
-            "hook": st.sampled_from(["probe1", "probe2", "rewrite", "extrude", "drop", "strip"]),
+            "hook": st.sampled_from(["probe1", "probe2", "rewrite", "extrude", "drop", "strip", "lower"]),
             "body": st.lists(inner, max_size=4)})
         return hist.weighted((7, inner), (1, ctx))
     c = hist.small_coord()
@@ -79,9 +79,9 @@ def op_strategy(depth=1):
             lambda m: {"op": "set_extrusion_mode", "mode": m})),
         (2, st.one_of(st.just(0.0), st.floats(min_value=-20, max_value=20)).map(
             lambda e: {"op": "set_axis_E", "E": e})),
-        (3, st.sampled_from(["probe1", "probe2", "rewrite", "extrude", "extrude", "drop", "strip"]).map(
+        (3, st.sampled_from(["probe1", "probe2", "rewrite", "extrude", "extrude", "drop", "strip", "lower"]).map(
             lambda h: {"op": "add_hook", "hook": h})),
-        (2, st.sampled_from(["probe1", "probe2", "rewrite", "extrude", "drop", "strip"]).map(
+        (2, st.sampled_from(["probe1", "probe2", "rewrite", "extrude", "drop", "strip", "lower"]).map(
             lambda h: {"op": "remove_hook", "hook": h})),
         (1, st.just({"op": "other_builder"})),
     )
@@ -130,8 +130,14 @@ class Runner:
             self.calls.append(("strip", tuple(origin), tuple(target), dict(params)))
             return ParamsDict()
 
+        def lower(origin, target, params, state):
+            """Returns a plain dict with lower-case words (same values)."""
+            self.calls.append(("lower", tuple(origin), tuple(target), dict(params)))
+            return {k.lower(): v for k, v in params.items()}
+
         funcs = {"probe1": mk_probe("probe1"), "probe2": mk_probe("probe2"),
-                 "rewrite": rewrite, "extrude": extrude, "drop": drop, "strip": strip}
+                 "rewrite": rewrite, "extrude": extrude, "drop": drop, "strip": strip,
+                 "lower": lower}
         # the same logical hooks in the forms a caller may register them in:
         # plain functions, bound methods (every attribute access makes a new,
         # equal method object), callable objects, functools.partial objects
@@ -155,6 +161,9 @@ class Runner:
 
             def strip(self, o, t, p, st):
                 return funcs["strip"](o, t, p, st)
+
+            def lower(self, o, t, p, st):
+                return funcs["lower"](o, t, p, st)
 
         class Obj:
             def __init__(self, f):
@@ -295,6 +304,12 @@ class Runner:
                     exp.pop("E", None)
                 got = dict(b[3])
                 if a[0] == "extrude":
+                    got.pop("E", None)
+                # (words are case-insensitive: a hook may hand on lower-case keys)
+                exp = {k.upper(): v for k, v in exp.items()}
+                got = {k.upper(): v for k, v in got.items()}
+                if a[0] == "extrude":
+                    exp.pop("E", None)
                     got.pop("E", None)
                 if exp != got:
                     raise Violation(f"{op!r}: hook {b[0]} received {b[3]!r}, its predecessor "
